@@ -242,11 +242,12 @@ def raises_obligations(name, quals, allowed):
                           'binding error: %s not found' % q))
             continue
         esc = prog.escaping(q, None, memo)
-        bad = sorted((e, o) for e, o in esc if e not in allowed)
+        bad = sorted((e, o) for e, o in esc if e not in allowed and
+                     not any(isinstance(a, tuple) and a[0] == e and a[1] in o for a in allowed))
         short = q.rsplit('.', 1)[-1]
         if not bad:
             obs.append(Ob('eff:%s:raises:%s' % (name, short), 'D', 'effects', DISCHARGED, 0,
-                          'nothing but %r escapes %s' % (sorted(allowed), q), functions=[q]))
+                          'nothing but %r escapes %s' % (sorted(map(str, allowed)), q), functions=[q]))
         for e, o in bad:
             obs.append(Ob('eff:%s:raises:%s' % (name, short), 'D', 'effects', REFUTED, 0,
                           '%s may escape %s (origin: %s)' % (e, q, o), dict(exception=e, origin=o), functions=[q],
